@@ -46,6 +46,7 @@ LEAF_SPECS = {
     "wide-cur": (["好x"], [[("x", 1), (None, 1)]], None, (2, 0), None),
     "popup": (["mno"], None, None, None, (1, 0)),
     "sp": (["  "], [[("x", 2)]], None, None, None),
+    "ctl": (["a\tbc\x7fd"], [[("x", 2), (None, 1), ("y", 3)]], None, None, None),  # control characters occupy no column (they stay with the cell before them)
     "widecomb": (["\u304b\u3099x"], [[("y", 2), (None, 1)]], None, None, None),  # double-width KA followed by a combining mark (U+3099)
 }
 SOLIDS = {"solid": ("s", 3, 2), "solid1": ("#", 1, 1)}
@@ -615,8 +616,34 @@ def t_delta(task, ctx: Ctx):
             ctx.obs(e_old, e_new, kept)
 
 
+def t_large(task, ctx: Ctx):
+    """blank padding regions wider / taller than any small-integer shortcut: pads of 255..300 on every side, joined and overlaid"""
+    env.reset("utf-8")
+    for name in ("ab", "wide2", "attr"):
+        v = build(("leaf", name))
+        for n in (255, 256, 257, 300):
+            for op in (("lr", n, 0), ("lr", 0, n), ("lr", n, n), ("tb", n, 0), ("tb", 0, n)):
+                ctx.count("evaluations")
+                hist = ("u", op, v.hist)
+                try:
+                    c, g = apply_unary(v.canv, v.g, op)
+                except Exception as e:
+                    ctx.violation("no-raise", f"C02/op-raises/{op[0]}-large/{exc_site(e)}", {"expr": hist}, repr(e))
+                    continue
+                nv = Val(c, g, hist, (op[0], *v.kinds))
+                if compare(ctx, nv) and op[0] == "lr":
+                    # a second operation cutting through the big blank region
+                    for op2 in (("lr", -(n // 2), 0), ("lr", 0, -(n // 2)), ("tb", 0, 1)):
+                        ctx.count("evaluations")
+                        try:
+                            c2, g2 = apply_unary(nv.canv, nv.g, op2)
+                            compare(ctx, Val(c2, g2, ("u", op2, hist), (op2[0], *nv.kinds)))
+                        except Exception as e:
+                            ctx.violation("no-raise", f"C02/op-raises/{op2[0]}-large/{exc_site(e)}", {"expr": ("u", op2, hist)}, repr(e))
+
+
 def dispatch(task, ctx: Ctx):
-    return {"l1": t_level1, "l2": t_level2, "l3": t_level3, "ops": t_operands, "delta": t_delta}[task[0]](task, ctx)
+    return {"l1": t_level1, "l2": t_level2, "l3": t_level3, "ops": t_operands, "delta": t_delta, "large": t_large}[task[0]](task, ctx)
 
 
 def chunks(lst, n):
@@ -647,6 +674,7 @@ def run(tier, R):
     for ds in dsets:
         for i in range(8):
             tasks.append(("delta", ds, i, 8))
+    tasks.append(("large",))
     R.run_tasks(dispatch, tasks)
     ev = int(R.ctx.counts["evaluations"])
     cov = {
@@ -658,7 +686,7 @@ def run(tier, R):
         "rule": f"{len(leaves)} leaf canvases (text with wide/combining/DEC-charset content, run-length attrs, cursor, pop-up; solid) -> every unary op "
         "(wrap, pad/trim left/right and top/bottom in [-2,2], trim, trim_end, 3 attribute maps) and every chain of 2-3 attribute maps (repeats included, on one wrapper and nested) -> every binary op (combine, join with pad 0/1, overlay "
         f"at every offset) over a pool of {len(Bq)} values followed by every unary op -> binary ops of {len(pairs)} leaf-pair composites with "
-        f"{len(outer_leaves)} leaves in both orders followed by unary ops; content() windows on leaves; finalize guard; operands re-read; delta for "
+        f"{len(outer_leaves)} leaves in both orders followed by unary ops; content() windows on leaves; blank paddings of 255..300 columns / rows; finalize guard; operands re-read; delta for "
         "every same-size pair of composites over shared leaf objects. states = distinct result grids of binary expressions; evaluations = canvases compared",
         "exhaustive": True,
     }
